@@ -557,8 +557,33 @@ func RunCheck(p *Property, cfg CheckConfig) int {
 		exit = 1
 	}
 
+	// Regression scenarios: the minimised scenarios of defects that were repaired (regress/
+	// <ID>-*.json, committed) are re-executed in a fresh process each; a repaired defect that
+	// returns is reported again even when the seeded search of this run does not reach it.
+	regressN := 0
+	if files, _ := filepath.Glob(filepath.Join(cfg.VerifDir, "regress", p.ID+"-*.json")); len(files) > 0 && os.Getenv("VERIF_NO_REGRESS") == "" {
+		sort.Strings(files)
+		for _, f := range files {
+			rc := exec.Command(cfg.Self, "replay", f)
+			rc.Env = append(os.Environ(), "VERIF_SCRATCH="+filepath.Join(tmp, "regress"))
+			outb, rerr := rc.CombinedOutput()
+			regressN++
+			switch {
+			case rerr == nil:
+			case strings.Contains(string(outb), "REPRODUCED"):
+				fmt.Fprintf(os.Stderr, "verifsim: regression scenario %s reproduces again\n%s\n", f, lastLines(string(outb), 6))
+				lines = append(lines, fmt.Sprintf("VIOLATION property=%s replay=%s", p.ID, f))
+				violN++
+				exit = 1
+			default:
+				fmt.Fprintf(os.Stderr, "HARNESS: regression scenario %s could not be executed: %v\n%s\n", f, rerr, lastLines(string(outb), 6))
+				return 2
+			}
+		}
+	}
+
 	wall := time.Since(start).Seconds()
-	if err := WriteEvidence(p, cfg, total, wall, violN, knownN, detN); err != nil {
+	if err := WriteEvidence(p, cfg, total, wall, violN, knownN, detN, regressN); err != nil {
 		fmt.Fprintln(os.Stderr, "HARNESS: cannot write evidence:", err)
 		return 2
 	}
@@ -594,7 +619,7 @@ func firstLine(s string) string {
 }
 
 // WriteEvidence writes /verif/evidence/<id>.json per EVIDENCE.schema.json.
-func WriteEvidence(p *Property, cfg CheckConfig, r *WorkerResult, wall float64, viol, known, detN int) error {
+func WriteEvidence(p *Property, cfg CheckConfig, r *WorkerResult, wall float64, viol, known, detN int, regressN int) error {
 	var rules []string
 	for _, b := range p.Batches {
 		rules = append(rules, fmt.Sprintf("[%s] %s", b.Name, b.Rule))
@@ -625,23 +650,24 @@ func WriteEvidence(p *Property, cfg CheckConfig, r *WorkerResult, wall float64, 
 		"distinct_nontrivial": r.Stats.SetSize("nontrivial_scenarios"),
 		"rule": "Scenarios are generated from VERIF_SEED via splitmix64 (seed_i = H(seed, property/batch, i)); distinct = distinct hash of (batch, knobs, ops); " +
 			"non-trivial per batch: " + strings.Join(rules, " "),
-		"samples":                    samples,
-		"runs_per_batch":             r.PerBatch,
-		"runs_skipped_for_budget":    r.Skipped,
-		"runs_per_hour":              float64(r.Runs) / wall * 3600,
-		"simulated_steps":            r.Stats.SimSteps,
-		"simulated_time_s":           r.Stats.SimTime,
-		"faults_fired":               faults,
-		"probes":                     probes,
-		"counters":                   other,
-		"distinct_sets":              sets,
-		"determinism_selfcheck_runs": detN,
-		"components_real":            p.Real,
-		"components_stub":            p.Stub,
-		"known_findings_reported":    known,
-		"workers":                    cfg.Workers,
-		"gomaxprocs":                 runtime.GOMAXPROCS(0),
-		"repo":                       cfg.RepoDir,
+		"samples":                       samples,
+		"runs_per_batch":                r.PerBatch,
+		"runs_skipped_for_budget":       r.Skipped,
+		"runs_per_hour":                 float64(r.Runs) / wall * 3600,
+		"simulated_steps":               r.Stats.SimSteps,
+		"simulated_time_s":              r.Stats.SimTime,
+		"faults_fired":                  faults,
+		"probes":                        probes,
+		"counters":                      other,
+		"distinct_sets":                 sets,
+		"determinism_selfcheck_runs":    detN,
+		"regression_scenarios_replayed": regressN,
+		"components_real":               p.Real,
+		"components_stub":               p.Stub,
+		"known_findings_reported":       known,
+		"workers":                       cfg.Workers,
+		"gomaxprocs":                    runtime.GOMAXPROCS(0),
+		"repo":                          cfg.RepoDir,
 	}
 	ev := map[string]interface{}{
 		"property_id": p.ID,
@@ -690,4 +716,12 @@ func maxViolations() int {
 		}
 	}
 	return 3
+}
+
+func lastLines(s string, n int) string {
+	l := strings.Split(strings.TrimRight(s, "\n"), "\n")
+	if len(l) > n {
+		l = l[len(l)-n:]
+	}
+	return strings.Join(l, "\n")
 }
